@@ -67,6 +67,15 @@ def run(ctx):
             for interp in ("direct", "nn", "linear"):
                 js.append(Job("explore_%s_%s_N%d" % (layer, interp, n), SRC, ["-O1", "-w", "-pthread"] + extra, ["VP_LAYER=" + layer], ["explore", bound, cap, ctx.tier, "/%s/N%d/" % (interp, n)], timeout=1500,
                               key_prefix="explore_%s_%s_N%d" % (layer, interp, n)))
+    # function-granular exploration: every entry into a covfie function is a scheduling point as well (-finstrument-functions)
+    FN = ["-O0", "-w", "-pthread", "-DVP_FN_POINTS", "-finstrument-functions", "-finstrument-functions-exclude-file-list=include/vp,harness/,/usr/"]
+    for layer, extra in LAYERS:
+        for n in ((2,) if layer == "L_hilbert" else (1, 2)):
+            for interp in ("direct", "nn", "linear"):
+                if interp == "linear" and not thorough:
+                    continue   # one linear lookup has ~130 function entries; bound 2 over it is a thorough-tier item
+                js.append(Job("explorefn_%s_%s_N%d" % (layer, interp, n), SRC, FN + extra, ["VP_LAYER=" + layer], ["explore_fn", 2, cap, ctx.tier, "/%s/N%d/" % (interp, n)], timeout=1500,
+                              key_prefix="explorefn_%s_%s_N%d" % (layer, interp, n)))
     for layer, extra in LAYERS:
         for T in ((2, 3, 8, 16) if thorough else (2, 8)):
             js.append(Job("tsan_%s_T%d" % (layer, T), SRC, ["-O1", "-g", "-w", "-pthread", "-fsanitize=thread"] + extra, ["VP_LAYER=" + layer], ["free", T], timeout=900,
@@ -74,16 +83,17 @@ def run(ctx):
     # compile each distinct (src, flags, defines) once: the tsan jobs of one layer share a binary
     total = core.build_and_run(ctx, js)
     ex = {k: v for k, v in total.items()}
-    scheds = int(sum(j.stats.get("traces", 0) for j in js if j.name.startswith("explore_") and j.stats))
-    points = int(sum(j.stats.get("transitions", 0) for j in js if j.name.startswith("explore_") and j.stats))
+    scheds = int(sum(j.stats.get("traces", 0) for j in js if j.name.startswith("explore") and j.stats))
+    points = int(sum(j.stats.get("transitions", 0) for j in js if j.name.startswith("explore") and j.stats))
+    fn_scheds = int(sum(j.stats.get("traces", 0) for j in js if j.name.startswith("explorefn_") and j.stats))
     capped = int(sum(j.stats.get("configs_capped", 0) for j in js if j.stats))
     if capped:
         ctx.capped = True
     ctx.level = "model_checking"
     samples = []
     for j in js:
-        if j.name.startswith("explore_"):
-            samples += j.stats.get("samples", [])[:3]
+        if j.name.startswith("explore"):
+            samples += j.stats.get("samples", [])[:2]
     ctx.cov.update({
         "states": scheds, "transitions": points, "traces_validated_against_impl": scheds, "schedules": scheds, "scheduling_points": points,
         "evaluations": scheds, "distinct_nontrivial": int(total.get("distinct_nontrivial", 0)),
@@ -94,8 +104,9 @@ def run(ctx):
                 "per (layer in strided/morton portable/morton BMI2/hilbert, interpolation in direct/nn/linear, N in 1..3, program, shared or per-thread views): ALL interleavings for the 2-thread programs "
                 "(e.g. C(18,9)=48620 for two 3-D linear lookups), preemption bound %d for the 3-thread programs (3 readers x 2 lookups; 2 readers + 1 writer storing to cells nobody else touches); every schedule runs to completion; "
                 "oracle per schedule: per-thread results == sequential run, final storage == sequential, no cell written by one thread and accessed by another, no out-of-bounds index; violating schedules are replayed twice before being reported; "
-                "states = complete schedules executed, transitions = scheduling decisions taken; non-trivial = distinct (configuration, program) pairs; separately the same thread bodies run free under -fsanitize=thread with T in %s"
+                "a second exploration is built with -finstrument-functions so that every entry into a covfie function is a scheduling point too (programs in which one lookup primes per-view / static state and another thread's lookup falls in between; preemption bound 2); states = complete schedules executed, transitions = scheduling decisions taken; non-trivial = distinct (configuration, program) pairs; separately the same thread bodies run free under -fsanitize=thread with T in %s"
                 % (bound, "2,3,8,16" if thorough else "2,8"),
+        "schedules_with_function_entry_points": fn_scheds,
         "static_state_inventory": inv,
         "tsan_runs": [j.name for j in js if j.name.startswith("tsan_")],
     })
